@@ -204,7 +204,8 @@ impl Qcow2Info {
         let rb_entries = (cluster_size as u64) * 8 / (1 << refcount_order);
         let rt_entry_size = rb_entries * (cluster_size as u64);
 
-        let rc_table_entries = size.div_ceil(rt_entry_size);
+        // even an empty image has a refcount table (for its own meta data)
+        let rc_table_entries = std::cmp::max(size.div_ceil(rt_entry_size), 1);
         let rc_table_size = (rc_table_entries as usize * std::mem::size_of::<u64>())
             .align_up(bs)
             .unwrap();
